@@ -89,3 +89,14 @@ def sec_then_parse(pub, compressed):
 def xonly_then_parse(pub):
     q = S256Point.parse(pub.xonly())
     return q.x.num, q.y.num
+
+
+def der_roundtrip_bytes(rb, sb):
+    """r and s given by their 32 big-endian bytes (every value below 2^256): encode, decode"""
+    r, s = int.from_bytes(rb, "big"), int.from_bytes(sb, "big")
+    sig = Signature.parse(Signature(r, s).der())
+    return sig.r, sig.s
+
+
+def der_of_bytes(rb, sb):
+    return Signature(int.from_bytes(rb, "big"), int.from_bytes(sb, "big")).der()
